@@ -802,6 +802,64 @@ var fins = []finDef{
 		}
 		return fakeTx(db, err, len(out)), &out
 	}},
+	// ScanRows called on the receiver itself (a handle when the finisher is run directly on it), the
+	// rows coming from a chain of it: db := DB.WithContext(ctx); rows := db.Model(&User{}).Rows(); db.ScanRows(rows, &u)
+	{text: `rows=Model(&User{}).Rows; ScanRows(rows,&nameAge)`, kind: "rows", f: func(db *gorm.DB) (*gorm.DB, interface{}) {
+		var out []nameAge
+		rows, err := db.Model(&User{}).Rows()
+		if err != nil || rows == nil {
+			return fakeTx(db, err, 0), &out
+		}
+		defer rows.Close()
+		for rows.Next() {
+			var d nameAge
+			if err = db.ScanRows(rows, &d); err != nil {
+				break
+			}
+			out = append(out, d)
+		}
+		return fakeTx(db, err, len(out)), &out
+	}},
+	{text: `rows=Model(&User{}).Rows; ScanRows(rows,&User)`, kind: "rows", f: func(db *gorm.DB) (*gorm.DB, interface{}) {
+		var out []User
+		rows, err := db.Model(&User{}).Rows()
+		if err != nil || rows == nil {
+			return fakeTx(db, err, 0), &out
+		}
+		defer rows.Close()
+		for rows.Next() {
+			var d User
+			if err = db.ScanRows(rows, &d); err != nil {
+				break
+			}
+			out = append(out, d)
+		}
+		return fakeTx(db, err, len(out)), &out
+	}},
+	{text: `rows=Rows; ScanRows(rows,&map)`, kind: "rows", needs: true, f: func(db *gorm.DB) (*gorm.DB, interface{}) {
+		var out []map[string]interface{}
+		rows, err := db.Rows() // straight on the receiver
+		if err != nil || rows == nil {
+			return fakeTx(db, err, 0), &out
+		}
+		defer rows.Close()
+		for rows.Next() {
+			d := map[string]interface{}{}
+			if err = db.ScanRows(rows, &d); err != nil {
+				break
+			}
+			out = append(out, d)
+		}
+		return fakeTx(db, err, len(out)), &out
+	}},
+	{text: `Select("name","age").Row`, kind: "rows", needs: true, f: func(db *gorm.DB) (*gorm.DB, interface{}) {
+		var d nameAge
+		row := db.Select("name", "age").Row()
+		if row == nil {
+			return fakeTx(db, errors.New("nil row"), 0), &d
+		}
+		return fakeTx(db, row.Scan(&d.Name, &d.Age), 1), &d
+	}},
 	{text: `Model(&User{}).Select("name","age").Row`, kind: "rows", write: false, needs: false, f: func(db *gorm.DB) (*gorm.DB, interface{}) {
 		var d nameAge
 		row := db.Model(&User{}).Select("name", "age").Row()
@@ -2366,7 +2424,9 @@ func genHistory(rt *rapid.T) History {
 	// a lasting change made to it by the history is observed even if no generated chain follows
 	if rapid.IntRange(0, 4).Draw(rt, "probes") != 0 {
 		for _, x := range handles[1:] {
-			h.Actions = append(h.Actions, Action{Kind: "direct", H: x.id, Fin: finIndex[`Find(&[]User)`]})
+			// two different models: a handle that silently got a table / schema / model of one of them shows with the other
+			h.Actions = append(h.Actions, Action{Kind: "direct", H: x.id, Fin: finIndex[`Find(&[]User)`]},
+				Action{Kind: "direct", H: x.id, Fin: finIndex[`Find(&[]Toy)`]})
 			if !hasRaw(x.calls) { // see drawFin: no write finisher on a statement that carries raw SQL
 				h.Actions = append(h.Actions, Action{Kind: "direct", H: x.id, Fin: finIndex[`Model(&User{}).Updates(map{age:55})`]})
 			}
